@@ -48,6 +48,17 @@ def main():
             if not in_repo:
                 env['FEMIO_REPO'] = wt
             verdicts = []
+            if dm is not None and dm.returncode == 0:
+                # the demonstration passes WITH the change on this HEAD: a later fix: commit made the change harmless for
+                # the property (meta.neutralised_by); nothing to detect
+                print(f'{sid:28s} {prop} demo_with_change_exit=0 -> NEUTRALISED (the demonstration passes with the change on this HEAD: '
+                      f'{(meta.get("neutralised_by") or {}).get("commit", "?")})')
+                results[sid] = 'neutralised'
+                if in_repo:
+                    sh('git -C /repo checkout -- .')
+                else:
+                    sh(f'git -C /repo worktree remove --force {wt}')
+                continue
             # meta['also_check']: other properties whose check is expected to see this change as well (a change that
             # needs a history manifests under the history property C19 / C08 even when it was seeded for another one)
             for pr in [prop] + list(meta.get('also_check', [])):
